@@ -60,15 +60,21 @@ def _lcm(a, b):
     return a * b // gcd(a, b)
 
 
-@lru_cache(maxsize=1 << 17)
-def spec_row(r, h, costs):
-    """[D(r, h[:j]) for j in 0..len(h)], exact: the float costs are taken as the rationals they are, scaled
-    to integers, Wagner-Fischer over Python ints, scaled back (one rounding to float at the very end)."""
+@lru_cache(maxsize=256)
+def _int_costs(costs):
+    """the float costs as exact integers over a common denominator"""
     fr = [Fraction(c) for c in costs]
     den = 1
     for f in fr:
         den = _lcm(den, f.denominator)
-    ic, dc, sc = (int(f * den) for f in fr)
+    return tuple(int(f * den) for f in fr) + (den,)
+
+
+@lru_cache(maxsize=1 << 17)
+def spec_row(r, h, costs):
+    """[D(r, h[:j]) for j in 0..len(h)], exact: the float costs are taken as the rationals they are, scaled
+    to integers, Wagner-Fischer over Python ints, scaled back (one rounding to float at the very end)."""
+    ic, dc, sc, den = _int_costs(costs)
     # prev[j] = D(r[:i], h[:j])
     prev = [j * ic for j in range(len(h) + 1)]
     for i in range(1, len(r) + 1):
@@ -84,7 +90,7 @@ def spec_row(r, h, costs):
                 best = v
             cur.append(best)
         prev = cur
-    return tuple(float(Fraction(v, den)) for v in prev)
+    return tuple(v / den for v in prev)  # int / int is correctly rounded in Python: the float nearest to the exact rational
 
 
 def spec_min_over_scripts(r, costs, alpha, maxlen):
@@ -120,17 +126,27 @@ def spec_min_over_scripts(r, costs, alpha, maxlen):
 # cases -> batches -> calls
 
 
+_COLS_MEMO = {}
+_TABLE_MEMO = {}
+_TENSOR_MEMO = {}
+
+
 def _columns(case):
     """-> (R, H, ref_cols, hyp_cols): N columns each, as tuples. Either explicit ('ref'/'hyp': list of
     columns, all of one length; 'R'/'H' given when N could not tell) or generated ('gen': every pair of a
     column over `alpha` of length R with one of length H, reference-major, ref columns [lo, hi) only)."""
     if "gen" in case:
         g = case["gen"]
-        rs = list(itertools.product(g["alpha"], repeat=g["R"]))
-        hs = list(itertools.product(g["alpha"], repeat=g["H"]))
-        lo, hi = g.get("rsel", [0, len(rs)])
-        rs = rs[lo:hi]
-        return g["R"], g["H"], [r for r in rs for _ in hs], [h for _ in rs for h in hs]
+        key = repr(sorted(g.items()))
+        if key not in _COLS_MEMO:  # consecutive cases differ in flags only: build the batch once per worker
+            rs = list(itertools.product(g["alpha"], repeat=g["R"]))
+            hs = list(itertools.product(g["alpha"], repeat=g["H"]))
+            lo, hi = g.get("rsel", [0, len(rs)])
+            rs = rs[lo:hi]
+            if len(_COLS_MEMO) >= 4:
+                _COLS_MEMO.clear()
+            _COLS_MEMO[key] = (g["R"], g["H"], [r for r in rs for _ in hs], [h for _ in rs for h in hs])
+        return _COLS_MEMO[key]
     ref = [tuple(c) for c in case["ref"]]
     hyp = [tuple(c) for c in case["hyp"]]
     assert len(ref) == len(hyp) and len(ref) >= 1
@@ -142,8 +158,15 @@ def _columns(case):
 def _tensor(cols, T, batch_first):
     import torch
 
-    t = torch.tensor([list(c) for c in cols], dtype=torch.long).reshape(len(cols), T)
-    return t if batch_first else t.t().contiguous()
+    hit = _TENSOR_MEMO.get(id(cols))
+    if hit is not None and hit[0] is cols:
+        t = hit[1]
+    else:
+        t = torch.tensor([list(c) for c in cols], dtype=torch.long).reshape(len(cols), T)
+        if len(_TENSOR_MEMO) >= 8:
+            _TENSOR_MEMO.clear()
+        _TENSOR_MEMO[id(cols)] = (cols, t)
+    return t.clone() if batch_first else t.t().contiguous()
 
 
 def _cfg(case):
@@ -201,32 +224,45 @@ def _call(cfg, ref_cols, hyp_cols, R, H):
     return out.detach().to(torch.float64), None
 
 
-def _expected(cfg, ref_cols, hyp_cols, H):
-    """-> (exp, constrained, is_pad) float64/bool tensors in layout (N,) or (rows, N)"""
+def _spec_table(cfg, ref_cols, hyp_cols, H):
+    """-> (full, rl, hl): full[n, j] = D(r_n, h_n[:j]) for j <= |h_n| (0 beyond), |r_n|, |h_n|. Depends on the batch,
+    eos, include_eos and the costs only, so it is memoised per worker across the flag variants of one batch (the
+    memo holds the very list objects it was computed from)."""
     import torch
 
     eos, inc = cfg["eos"], cfg["include_eos"]
-    N = len(ref_cols)
-    prefix = cfg["fn"] == "prefix"
-    rows = H + (0 if cfg["exclude_last"] else 1)
+    key = (id(ref_cols), id(hyp_cols), eos, inc, cfg["costs"])
+    hit = _TABLE_MEMO.get(key)
+    if hit is not None and hit[0] is ref_cols and hit[1] is hyp_cols:
+        return hit[2]
     vals, rl, hl = [], [], []
     for r, h in zip(ref_cols, hyp_cols):
         rs, hs = spec_seq(r, eos, inc), spec_seq(h, eos, inc)
         row = spec_row(rs, hs, cfg["costs"])
         rl.append(len(rs))
         hl.append(len(hs))
-        if prefix:
-            vals.append(list(row[:rows]) + [0.0] * (rows - len(row)))
-        else:
-            vals.append(row[-1])
-    exp = torch.tensor(vals, dtype=torch.float64).reshape((N, rows) if prefix else (N,))
-    rl = torch.tensor(rl, dtype=torch.float64)
-    hl = torch.tensor(hl, dtype=torch.long)
+        vals.append(list(row) + [0.0] * (H + 1 - len(row)))
+    out = (torch.tensor(vals, dtype=torch.float64).reshape(len(ref_cols), H + 1), torch.tensor(rl, dtype=torch.float64), torch.tensor(hl, dtype=torch.long))
+    if len(_TABLE_MEMO) >= 4:
+        _TABLE_MEMO.clear()
+    _TABLE_MEMO[key] = (ref_cols, hyp_cols, out)
+    return out
+
+
+def _expected(cfg, ref_cols, hyp_cols, H):
+    """-> (exp, constrained, is_pad) float64/bool tensors in layout (N,) or (rows, N)"""
+    import torch
+
+    N = len(ref_cols)
+    prefix = cfg["fn"] == "prefix"
+    rows = H + (0 if cfg["exclude_last"] else 1)
+    full, rl, hl = _spec_table(cfg, ref_cols, hyp_cols, H)
     if prefix:
-        exp = exp.t()
+        exp = full[:, :rows].t()
         limit = hl + (0 if cfg["exclude_last"] else 1)  # number of reported prefixes of pair n
         is_pad = torch.arange(rows).unsqueeze(1) >= limit.unsqueeze(0)
     else:
+        exp = full.gather(1, hl.unsqueeze(1)).squeeze(1)
         is_pad = torch.zeros(N, dtype=torch.bool)
     constrained = torch.ones_like(is_pad)
     if cfg["norm"]:
